@@ -454,18 +454,20 @@ def encVpsHrds : Nat → List (Nat × Bool × HrdSyn) → List Bool
   | i, (idx, cprms, h) :: rest =>
     ue idx ++ (if i > 0 then flag cprms else []) ++ encHrdC (i = 0 || cprms) h ++ encVpsHrds (i + 1) rest
 
+def encVpsTiming (v : VpsSyn) : List Bool :=
+  flag v.vps_timing_info_present_flag ++
+  (if v.vps_timing_info_present_flag then
+    u 32 v.vps_num_units_in_tick ++ u 32 v.vps_time_scale ++ flag v.vps_poc_proportional_to_timing_flag ++
+    (if v.vps_poc_proportional_to_timing_flag then ue v.vps_num_ticks_poc_diff_one_minus1 else []) ++
+    ue v.hrds.length ++ encVpsHrds 0 v.hrds else [])
+
 /-- video_parameter_set_rbsp() without trailing bits, 7.3.2.1 -/
 def encVpsData (v : VpsSyn) : List Bool :=
   u 4 v.vps_video_parameter_set_id ++ flag v.vps_base_layer_internal_flag ++ flag v.vps_base_layer_available_flag ++
   u 6 v.vps_max_layers_minus1 ++ u 3 v.ptl.sub_layers.length ++ flag v.vps_temporal_id_nesting_flag ++
   u 16 0xffff ++ encPtl v.ptl ++ flag v.vps_sub_layer_ordering_info_present_flag ++ encOrdering v.ordering ++
   u 6 v.vps_max_layer_id ++ ue v.layer_sets.length ++ encLayerSets v.layer_sets ++
-  flag v.vps_timing_info_present_flag ++
-  (if v.vps_timing_info_present_flag then
-    u 32 v.vps_num_units_in_tick ++ u 32 v.vps_time_scale ++ flag v.vps_poc_proportional_to_timing_flag ++
-    (if v.vps_poc_proportional_to_timing_flag then ue v.vps_num_ticks_poc_diff_one_minus1 else []) ++
-    ue v.hrds.length ++ encVpsHrds 0 v.hrds else []) ++
-  flag v.vps_extension_flag
+  encVpsTiming v ++ flag v.vps_extension_flag
 
 def encVpsRbsp (v : VpsSyn) : List Bool := encVpsData v ++ trailing (encVpsData v).length
 
